@@ -180,4 +180,55 @@ CLAIMED["C18"] = {
             "A positive fixture must fire on every run.",
 }
 
+CLAIMED["C02"] = {
+    "technique": "static analysis: multiplicand-index discipline at the tt_dimscheck sites (def-use of vidx / dims / the multiplicand "
+                 "container), Khatri-Rao convention, enumeration-order discipline in the dense kernels, Kruskal-weights rule with "
+                 "constant propagation in get_mttkrp_factors, fold coverage of sumtensor kernels, representation reads, scalar-collapse",
+    "level": "Decides necessary structural conditions of the kernels: multiplicands addressed only through vidx[j] and modes through "
+             "dims[j] (same j), reverse Khatri-Rao over ascending lists, F reshapes, a Kruskal operand's weights applied in every "
+             "MTTKRP (absorbed into a non-skipped factor), every sumtensor part folded in, every defining component of Kruskal / Tucker "
+             "/ sparse receivers read, single-entry look-ups normalised. Numbers and the densification switch are not decided.",
+    "note": "Trusted: tt_dimscheck / khatrirao contracts (structurally checked under C17); numpy default orders.",
+}
+CLAIMED["C08"] = {
+    "technique": "static analysis: parity abstract domain with refinement on mod-2 tests over all paths of fixsigns, selector agreement "
+                 "(weights vs factor columns) in arrange / extract / normalize(sort) / + / -, writer/reader agreement of tovec vs "
+                 "from_vector / update, absorb-then-reset pairing",
+    "level": "Decides that every sign-flip loop runs an even number of times on every path (so a component keeps its sign), that the "
+             "negative-weight repair negates exactly one factor with the weight, that one selector permutes weights and all factors, that "
+             "+ / - concatenate in one operand order, that tovec and its inverses agree on prefix and F order, and that absorbed weights are "
+             "reset. Unit norms, sortedness and numerical invariance of full() are not decided.",
+    "note": "Trusted: breakpt + 1 is the count of negatively correlated modes; integer-valuedness of floor/int.",
+}
+CLAIMED["C09"] = {
+    "technique": "static analysis: must-pass-through ordering over all returning paths (arrange after last update, fixsigns after "
+                 "arrange), closed-form conformance of the fit / residual expressions by term rewriting (sympy), Gram-cache refresh "
+                 "pattern, loop bounds, identity of the returned guess",
+    "level": "Decides that the returned model was arranged after its last update on every path, that both fit expressions (iteration "
+             "and print-time recomputation, zero-norm and regular branch) equal the property's formula as terms over nX, nM, <X,M>, "
+             "that <X,M> uses the last mode's saved MTTKRP with weights, that the Gram cache is refreshed after each assignment and "
+             "excludes the solved mode, that the loop is range(maxiters) and that the returned guess is the copied one. Monotone fit, "
+             "stationarity and numerics are not decided.",
+    "note": "Trusted: sympy normal forms; arrange / norm / innerprod mean what C08 / C02 check structurally.",
+}
+CLAIMED["C10"] = {
+    "technique": "static analysis: closed-form conformance of the threshold and fit formulas (sympy), index-vs-count unit typing of the "
+                 "rank and the eigenvector slice, eigen typestate on hosvd's eigh, transposed-projection pattern on every ttm call",
+    "level": "Decides that the threshold is tol^2 ||X||^2 / d, that the number of eigenvectors kept is a COUNT on every reaching "
+             "definition of the rank (the off-by-one class), that stored factors are descending-sorted eigenvector columns of eigh, that "
+             "all four projections use the transposed factor and that Tucker-ALS's fit equals the formula with the current core's norm. "
+             "The error bound itself and monotonicity are not decided.",
+    "note": "Trusted: scipy.linalg.eigh contract; sympy normal forms.",
+}
+CLAIMED["C11"] = {
+    "technique": "static analysis: projection-after-step pattern in the row line search, ordering of final normalisation / objective / "
+                 "return in the three solvers, affine index-vs-slice coverage of the diagnostics, loop bounds, copy-of-guess pattern",
+    "level": "Decides that every line-search candidate is projected onto the non-negative orthant before use, that the reported objective "
+             "is evaluated for the returned model after the final normalisation with no later write, that each diagnostic array has one "
+             "entry per outer iteration, that KKT violations are max |.| and that loops respect maxiters / maxinneriters. This is a thin "
+             "clause set: non-negativity of the multiplicative update, likelihood values and 'at least as likely as the start' are "
+             "relations between floating-point quantities and are not decided.",
+    "note": "Trusted: normalize only re-parameterises; tt_loglikelihood evaluates the Poisson log-likelihood of its arguments.",
+}
+
 NOT_APPLICABLE = {}
